@@ -2,8 +2,8 @@
 From Coq Require Import ZArith List Bool Reals.
 From Flocq Require Import Core IEEE754.BinarySingleNaN.
 From KV Require Import Base.IEEE Base.Outcome C01.Model C01.ProofsOut C01.ProofsNan C01.ProofsSteps
-     C01.ProofsRender C01.ProofsLoops C01.ProofsBridge C01.ProofsImports.
-From KV Require C02.Model C04.StaticSound C05.Model C05.ProofsSpeed C08.Model C08.Props.
+     C01.ProofsRender C01.ProofsLoops C01.ProofsBridge C01.ProofsImports C01.ProofsReuse.
+From KV Require C02.Model C04.StaticSound C05.Model C05.ProofsSpeed C08.Model C08.Props C08.Run.
 Import ListNotations.
 
 Theorem clamp_of_non_nan_is_finite_unit :
@@ -275,3 +275,22 @@ Theorem queues_never_overflow :
   forall (cf : C08.Model.cfg) (sched : list C08.Model.label),
     exists s, C08.Model.run cf sched (C08.Model.init cf) = Ok s.
 Proof. exact no_step_panics. Qed.
+
+(** * Slot re-use: after ANY history of the hand-off (any number of rounds in which a slot is handed out,
+    emptied by the audio thread and handed out again) the next whole creation on the caller's thread and the
+    next whole removal / adding pass of a callback run to completion: no push fails, however often the
+    rings have wrapped *)
+Theorem slot_reuse_next_creation_and_callback_return :
+  forall (cf : C08.Model.cfg) (sched : list C08.Model.label) (s : C08.Model.state),
+    C08.Model.run cf sched (C08.Model.init cf) = Ok s ->
+    (exists s1, C08.Model.run cf (C08.Run.create_sched s) s = Ok s1) /\
+    (exists s2, C08.Model.run cf (C08.Run.callback_sched cf s) s = Ok s2).
+Proof. exact slot_reuse_returns. Qed.
+(** the hypothesis is met after more rounds than the storage and its unused-ring have places (1 slot,
+    5 rounds: payloads 0..3 destroyed by the caller's creations, payload 4 parked, count back to 0) *)
+Theorem slot_reuse_example :
+  exists s, C08.Model.run (C08.Model.mkCfg false false 1) (rounds 5) (C08.Model.init (C08.Model.mkCfg false false 1)) = Ok s /\
+            C08.Model.st_removed s = 5 /\ C08.Model.st_unused s = [4] /\
+            C08.Model.st_destroyed s = [(3, C08.Model.Gameplay); (2, C08.Model.Gameplay); (1, C08.Model.Gameplay); (0, C08.Model.Gameplay)] /\
+            C08.Model.res_len s = 0.
+Proof. exact slot_reuse_example_lemma. Qed.
